@@ -8,6 +8,7 @@ import (
 
 	"github.com/ipld/go-ipld-prime/datamodel"
 	cidlink "github.com/ipld/go-ipld-prime/linking/cid"
+	"github.com/ipld/go-ipld-prime/schema"
 )
 
 // A minimal DAG-CBOR encoder written for the harness (no go-ipld-prime codec,
@@ -89,6 +90,10 @@ func (w *W) Node(n datamodel.Node) {
 	if n == nil || n.IsNull() {
 		w.Null()
 		return
+	}
+	if tn, ok := n.(schema.TypedNode); ok {
+		// a schema-typed value is stored / sent in its representation form
+		n = tn.Representation()
 	}
 	switch n.Kind() {
 	case datamodel.Kind_Map:
